@@ -485,7 +485,20 @@ struct Emitter {
       return;
     case Stmt::InitListExprClass: {
       const InitListExpr *il = cast<InitListExpr>(e);
-      o += "{\"k\":\"initlist\",\"args\":[";
+      if (il->isSemanticForm() == false && il->getSemanticForm()) il = il->getSemanticForm();
+      o += "{\"k\":\"initlist\",\"t\":" + std::to_string(tyId(il->getType()));
+      // field names when initialising a record
+      if (const RecordType *rt = il->getType()->getAs<RecordType>()) {
+        o += ",\"fields\":[";
+        bool first = true;
+        for (const FieldDecl *F : rt->getDecl()->fields()) {
+          if (!first) o += ",";
+          first = false;
+          o += "\"" + jesc(F->getName()) + "\"";
+        }
+        o += "]";
+      }
+      o += ",\"args\":[";
       for (unsigned i = 0; i < il->getNumInits(); ++i) {
         if (i) o += ",";
         E(il->getInit(i), o);
@@ -493,9 +506,14 @@ struct Emitter {
       o += "]}";
       return;
     }
-    case Stmt::UnaryExprOrTypeTraitExprClass:
-      o += "{\"k\":\"sizeof\"}";
+    case Stmt::UnaryExprOrTypeTraitExprClass: {
+      Expr::EvalResult R;
+      if (!e->isValueDependent() && e->EvaluateAsInt(R, Ctx)) {
+        o += "{\"k\":\"int\",\"v\":\"" + llvm::toString(R.Val.getInt(), 10) + "\",\"sizeof\":1,\"t\":" + std::to_string(tyId(e->getType())) + "}";
+      } else
+        o += "{\"k\":\"sizeof\"}";
       return;
+    }
     default: {
       o += "{\"k\":\"unk\",\"cls\":\"";
       o += e->getStmtClassName();
